@@ -32,6 +32,9 @@ package assets
 //@   ensures @C20: result == nil ==> fs(old(T)) == marshaledMsg(box(old(a.config)))
 //@   ensures @C20: result != nil ==> fs(old(T)) == old(fs(T))
 //@   assigns fs
+// Closed world for the ghost file system: any other callee (os.Remove, OpenFile, Truncate, ...) is a failed obligation,
+// so that a file-system effect cannot enter this function without a contract.
+//@   callsonly @C20: proto.Marshal, path.Join, getRandString, os.WriteFile, os.Rename
 
 //@ func (a *assets) SetClientConf(conf *pb.ClientConf) (err error)
 //@   requires a != nil && !held(&a.RWMutex) && rheld(&a.RWMutex) == 0
@@ -40,6 +43,7 @@ package assets
 //@   ensures @C20: err == nil ==> a.config == conf && fs(old(T)) == marshaledMsg(box(conf))
 //@   ensures @C20: !held(&a.RWMutex) && rheld(&a.RWMutex) == 0
 //@   assigns a.config, fs, held(&a.RWMutex), acq(&a.RWMutex)
+//@   callsonly @C20: RWMutex).Lock, RWMutex).Unlock, saveClientConf
 
 //@ func (a *assets) SetGeneration(gen uint32) (err error)
 //@   requires a != nil && !held(&a.RWMutex) && rheld(&a.RWMutex) == 0
